@@ -455,6 +455,7 @@ def extract_item(block, unit, fired_total, clauses, meta_items, mode='verus'):
             raise GenError('anchor lost: slice pattern %s in %s' % (spec, ' :: '.join(block.path)))
         a = find_stmt(dget('from'), it.open_i + 1)
         b = find_stmt(dget('to'), a) if dget('to') else a
+        is_expr = any(w == 'expr' for (w, _, _) in block.directives)
         # end of statement starting at b: `;` at depth 0, or a closing `}` of a block statement at depth 0
         k, depth, end = b, 0, None
         while k < it.close_i:
@@ -471,6 +472,20 @@ def extract_item(block, unit, fired_total, clauses, meta_items, mode='verus'):
                     end = k
                     break
             k += 1
+        if is_expr:
+            # expression slice: from the pattern up to (excluding) the first `{` at depth 0 (an if / else-if condition)
+            k, depth, end = a, 0, None
+            while k < it.close_i:
+                t = toks[k]
+                if t.kind == 'punct':
+                    if t.text in '([':
+                        depth += 1
+                    elif t.text in ')]':
+                        depth -= 1
+                    elif t.text == '{' and depth == 0:
+                        end = k - 1
+                        break
+                k += 1
         if end is None:
             raise GenError('slice end not found')
         orig = src[toks[a].start:toks[end].end]
@@ -657,7 +672,7 @@ def extract_item(block, unit, fired_total, clauses, meta_items, mode='verus'):
             tgt, tk = locate(text, cur_segs)
             ls = line_start(text, tk[tgt.first].start)
             add(ls, tag_lines(a, 'attr', '    '))
-        elif w in ('ret', 'rw', 'only', 'drop', 'name', 'semi', 'from', 'to', 'head', 'tail', 'r6', 'r11'):
+        elif w in ('ret', 'rw', 'only', 'drop', 'name', 'semi', 'from', 'to', 'head', 'tail', 'r6', 'r11', 'expr'):
             pass
         else:
             raise GenError('template line %s: unknown directive %r' % (ln, w))
